@@ -25,6 +25,13 @@ pub type F32x80 = Bvf<u32, 80>;
 /// 20 bytes: capacity above the inline `Bv` limit with a byte size that is a multiple of neither
 /// 8 nor 16 and N % 4 == 2 (re-chunking into wider words leaves more than one word over).
 pub type F16x10 = Bvf<u16, 10>;
+/// 70 400 bits in 1100 words (8800 bytes): beyond 2^16 bits, beyond any 4 or 8 KiB stack buffer
+/// and any 64-/128-/1024-word staging array. Boxed inside `Z` so that `Z` stays small.
+pub type F64x1100 = Bvf<u64, 1100>;
+/// Zero storage words: a legal instantiation whose only value is the empty vector. Everything
+/// that indexes word 0 or computes N - 1 without looking at N shows here.
+pub type F8x0 = Bvf<u8, 0>;
+pub type F64x0 = Bvf<u64, 0>;
 
 /// One value of any zoo type.
 #[derive(Clone, Debug)]
@@ -49,32 +56,69 @@ pub enum Z {
     A(Bv),
     F32x80(F32x80),
     F16x10(F16x10),
+    F64x1100(Box<F64x1100>),
+    F8x0(F8x0),
+    F64x0(F64x0),
+}
+
+/// Lets `z_match!` bind the content of a boxed variant like an unboxed one, whether `Z` is
+/// matched by value, by reference or by mutable reference.
+pub trait Unbox {
+    type Out;
+    fn unbox(self) -> Self::Out;
+}
+impl<T> Unbox for Box<T> {
+    type Out = T;
+    fn unbox(self) -> T {
+        *self
+    }
+}
+impl<'a, T> Unbox for &'a Box<T> {
+    type Out = &'a T;
+    fn unbox(self) -> &'a T {
+        self
+    }
+}
+impl<'a, T> Unbox for &'a mut Box<T> {
+    type Out = &'a mut T;
+    fn unbox(self) -> &'a mut T {
+        self
+    }
 }
 
 /// Index of a zoo type, 0..NT.
 pub type Tid = u8;
-pub const NT: u8 = 20;
+pub const NT: u8 = 23;
+/// Number of routine zoo types (all but the 70 400-bit one, which has its own enumerations).
+pub const NT_R: u8 = 20;
+/// The routine zoo types: everything except the 70 400-bit one (which has its own enumerations).
+pub const ROUTINE_TIDS: [Tid; 22] = [0, 1, 2, 3, 4, 5, 6, 7, 8, 9, 10, 11, 12, 13, 14, 15, 16, 17, 18, 19, 21, 22];
+/// The routine fixed types.
+pub const ROUTINE_FIXED: [Tid; 20] = [0, 1, 2, 3, 4, 5, 6, 7, 8, 9, 10, 11, 12, 13, 14, 15, 18, 19, 21, 22];
 /// The fixed zoo types (tid 18 was added after 16/17 had been taken by Bvd/Bv; the numbering is
 /// kept stable because replay files store it).
-pub const FIXED_TIDS: [Tid; 18] = [0, 1, 2, 3, 4, 5, 6, 7, 8, 9, 10, 11, 12, 13, 14, 15, 18, 19];
+pub const FIXED_TIDS: [Tid; 21] = [0, 1, 2, 3, 4, 5, 6, 7, 8, 9, 10, 11, 12, 13, 14, 15, 18, 19, 20, 21, 22];
+/// The 70 400-bit fixed type: operations on it cost three orders of magnitude more than on the
+/// crate's aliases, so generators pick it rarely and sweeps sample its lengths.
+pub const TID_HUGE: Tid = 20;
 pub const TID_D: Tid = 16;
 pub const TID_A: Tid = 17;
 
-pub const NAMES: [&str; 20] = [
+pub const NAMES: [&str; 23] = [
     "Bvf<u8,1>", "Bvf<u8,2>", "Bvf<u8,3>", "Bvf<u8,9>", "Bvf<u8,17>", "Bvf<u16,1>", "Bvf<u16,3>",
     "Bvf<u32,1>", "Bvf<u32,3>", "Bvf<u64,1>", "Bvf<u64,2>", "Bvf<u64,3>", "Bvf<u128,1>",
-    "Bvf<u128,2>", "Bvf<usize,1>", "Bvf<usize,2>", "Bvd", "Bv", "Bvf<u32,80>", "Bvf<u16,10>",
+    "Bvf<u128,2>", "Bvf<usize,1>", "Bvf<usize,2>", "Bvd", "Bv", "Bvf<u32,80>", "Bvf<u16,10>", "Bvf<u64,1100>", "Bvf<u8,0>", "Bvf<u64,0>",
 ];
 /// Storage word width in bits (Bvd and Bv: 64).
-pub const WORD_BITS: [usize; 20] = [8, 8, 8, 8, 8, 16, 16, 32, 32, 64, 64, 64, 128, 128, 64, 64, 64, 64, 32, 16];
+pub const WORD_BITS: [usize; 23] = [8, 8, 8, 8, 8, 16, 16, 32, 32, 64, 64, 64, 128, 128, 64, 64, 64, 64, 32, 16, 64, 8, 64];
 /// Number of words for fixed types (0 for Bvd / Bv).
-pub const NWORDS: [usize; 20] = [1, 2, 3, 9, 17, 1, 3, 1, 3, 1, 2, 3, 1, 2, 1, 2, 0, 0, 80, 10];
+pub const NWORDS: [usize; 23] = [1, 2, 3, 9, 17, 1, 3, 1, 3, 1, 2, 3, 1, 2, 1, 2, 0, 0, 80, 10, 1100, 0, 0];
 /// Inline capacity of `Bv` on this (64-bit) platform.
 pub const BV_INLINE: usize = 128;
 
 /// Capacity of a fixed type, `None` for the unbounded ones.
 pub fn fixed_cap(t: Tid) -> Option<usize> {
-    if NWORDS[t as usize] > 0 {
+    if is_fixed(t) {
         Some(WORD_BITS[t as usize] * NWORDS[t as usize])
     } else {
         None
@@ -82,7 +126,7 @@ pub fn fixed_cap(t: Tid) -> Option<usize> {
 }
 
 pub fn is_fixed(t: Tid) -> bool {
-    NWORDS[t as usize] > 0
+    t != TID_D && t != TID_A
 }
 
 /// `z_match!(z, v => expr)`: run `expr` with `v` bound to the concrete vector inside `z`
@@ -111,6 +155,13 @@ macro_rules! z_match {
             $crate::Z::A($v) => $body,
             $crate::Z::F32x80($v) => $body,
             $crate::Z::F16x10($v) => $body,
+            $crate::Z::F64x1100(b) => {
+                #[allow(unused_mut)]
+                let mut $v = $crate::Unbox::unbox(b);
+                $body
+            }
+            $crate::Z::F8x0($v) => $body,
+            $crate::Z::F64x0($v) => $body,
         }
     };
 }
@@ -140,6 +191,9 @@ macro_rules! tid_match {
             17 => { type $T = $crate::Bv; $body }
             18 => { type $T = $crate::F32x80; $body }
             19 => { type $T = $crate::F16x10; $body }
+            20 => { type $T = $crate::F64x1100; $body }
+            21 => { type $T = $crate::F8x0; $body }
+            22 => { type $T = $crate::F64x0; $body }
             _ => unreachable!("bad tid"),
         }
     };
@@ -462,8 +516,56 @@ impl_subject_fixed! {
     0, F8x1, F8x1; 1, F8x2, F8x2; 2, F8x3, F8x3; 3, F8x9, F8x9; 4, F8x17, F8x17;
     5, F16x1, F16x1; 6, F16x3, F16x3; 7, F32x1, F32x1; 8, F32x3, F32x3;
     9, F64x1, F64x1; 10, F64x2, F64x2; 11, F64x3, F64x3; 12, F128x1, F128x1; 13, F128x2, F128x2;
-    14, Fszx1, Fszx1; 15, Fszx2, Fszx2; 18, F32x80, F32x80; 19, F16x10, F16x10;
+    14, Fszx1, Fszx1; 15, Fszx2, Fszx2; 18, F32x80, F32x80; 19, F16x10, F16x10; 21, F8x0, F8x0; 22, F64x0, F64x0;
 }
+
+macro_rules! impl_subject_fixed_boxed {
+    ($($tid:expr, $var:ident, $T:ty);+ $(;)?) => {$(
+        impl Subject for $T {
+            const TID: Tid = $tid;
+            fn wrap(self) -> Z { Z::$var(Box::new(self)) }
+            fn from_z(z: Z) -> Option<Self> { match z { Z::$var(v) => Some(*v), _ => None } }
+            fn to_nat(&self, ty: NatTy, by_value: bool) -> Result<u128, ConvertionError> {
+                to_nat_body!(self, ty, by_value)
+            }
+            fn from_nat(n: Nat, by_ref: bool) -> Result<Self, ConvertionError> {
+                if by_ref {
+                    $crate::nat_match!(n, k => <$T>::try_from(&k))
+                } else {
+                    $crate::nat_match!(n, k => <$T>::try_from(k))
+                }
+            }
+            fn from_slice_skewed(ty: NatTy, items: &[u128], skew: usize) -> Result<Self, ConvertionError> {
+                slice_body!(ty, items, skew, <$T>::try_from)
+            }
+            fn reserve_x(&mut self, _k: usize) -> bool { false }
+            fn shrink_x(&mut self) -> bool { false }
+            fn raw(&self) -> String {
+                let (d, l) = self.clone().into_inner();
+                format!("Bvf{{len:{}, data:{:x?}}}", l, d)
+            }
+            fn not_x(&self, owned: bool) -> Self { if owned { !self.clone() } else { !self } }
+            fn shift_x(&self, left: bool, amt: Nat, form: ShForm) -> Self {
+                shift_body!(self, left, amt, form)
+            }
+            fn rebuild_inner(&self) -> Option<Self> {
+                let (d, l) = self.clone().into_inner();
+                Some(<$T>::new(d, l))
+            }
+            fn rhs_probe(&self, l: usize) -> (Self, Self) {
+                let mut o = <Self as BitVector>::zeros(l);
+                o |= self;
+                let mut a = <Self as BitVector>::zeros(l);
+                a += self;
+                (o, a)
+            }
+            fn is_heap(&self) -> Option<bool> { None }
+        }
+    )+};
+}
+
+
+impl_subject_fixed_boxed! { 20, F64x1100, F64x1100; }
 
 impl Subject for Bvd {
     const TID: Tid = TID_D;
